@@ -270,6 +270,7 @@ def mon_c04(sc, res):
     fails = []
     itr = res["itr"]
     R = {}   # path -> [owner, kind, value]
+    fetch_only = set()   # paths of states added with fetchOnly: true
     cfgv = D.C.config_values(sc.variant)
     local_only = cfgv.get("CONFIG_ALLOW_ADD_ONLY_FROM_LOCALHOST", "false") == "true"
     origin = {st[1]: st[3] for st in sc.steps if st[0] == "connect"}
@@ -296,6 +297,18 @@ def mon_c04(sc, res):
                 method = cget(r, b"method")
                 rid = cget(r, b"id")
                 params = cget(r, b"params")
+                if isinstance(method, bytes) and method in (b"set", b"call") and is_obj(params) and isinstance(cget(params, b"path"), bytes) \
+                        and is_id(rid) and (c, repr(rid)) not in dups and not uncertain and cget(params, b"path") not in unknown:
+                    # set is refused for methods, unknown paths and fetch-only states; call for states and unknown paths: the
+                    # requester gets an error at once (a request that is routed gets nothing in this step or the owner's answer)
+                    pth = cget(params, b"path")
+                    ent = R.get(pth)
+                    must_refuse = ent is None or (method == b"set" and (ent[1] == "method" or pth in fetch_only)) or (method == b"call" and ent[1] == "state")
+                    mine_sc = [v for v in resp if cget(v, b"id") == rid]
+                    if must_refuse and not (len(mine_sc) == 1 and has_member(mine_sc[0], b"error")) and c not in closed:
+                        why = "the path is unknown" if ent is None else ("the state is fetch-only" if pth in fetch_only and method == b"set" else "it is a %s" % ent[1])
+                        fails.append("step %d: %s on %s by c%d was not refused although %s" % (si, method.decode(), show(pth), c, why))
+                    continue
                 if not isinstance(method, bytes) or method not in (b"add", b"remove", b"change"):
                     continue
                 path = cget(params, b"path") if is_obj(params) else None
@@ -314,6 +327,10 @@ def mon_c04(sc, res):
                         if ok:
                             v = cget(params, b"value")
                             R[path] = [c, "state" if v is not None else "method", v]
+                            if cget(params, b"fetchOnly") is True:
+                                fetch_only.add(path)
+                            else:
+                                fetch_only.discard(path)
                         elif code != -32603.0:
                             fails.append("step %d: well-formed add of free path %s by c%d refused with code %s" % (si, show(path), c, code))
                     elif ok:
